@@ -365,7 +365,7 @@ def run_case(p, prefix=None, fp=None):
                     cause = ''
                 diag = ''
                 proc = chans[d].processor
-                if hasattr(proc, '_pending_pdus'):
+                if all(hasattr(proc, a) for a in ('_pending_pdus', '_tx_window', '_monitor_handle', '_receiver_ready_poll_handle')):
                     diag = (
                         f' sender: {len(proc._pending_pdus)} I-frames never sent, {len(proc._tx_window)} unacknowledged, '
                         f'monitor timer {"armed" if proc._monitor_handle is not None else "idle"}, retransmission timer '
